@@ -232,6 +232,19 @@ pub fn check_fault(m: &Model, c: &SeqCase, f: &Fault) -> CheckResult {
         script.extend(replies[..before].iter().cloned());
         script.push(fb.clone());
     }
+    // a terminal that sent a complete but wrong packet carries on: a well-formed final reply is queued behind the fault,
+    // so a client that mistakes the faulty packet for a good one is seen to continue (read, yield, acknowledge)
+    if matches!(f.kind.as_str(), "nack" | "foreign" | "malformed") {
+        let owned = m.owned(s);
+        let cont = if owned.iter().any(|(c, i, _, t)| (*c, *i) == (0x06, 0x0f) && *t == "CompletionData") {
+            vec![0x06, 0x0f, 0x00]
+        } else if owned.iter().any(|(c, i, _, _)| (*c, *i) == (0x06, 0x1e)) {
+            vec![0x06, 0x1e, 0x01, 0x6c]
+        } else {
+            vec![0x06, 0x0f, 0x00]
+        };
+        script.push(cont);
+    }
     let peer = Peer::scripted(script, vec![], c.chunks.clone());
     let run = guard(|| (s.run)(&cmd, peer, before + 4)).map_err(|p| Violation::new("fault", sig("C06", &c.seq, "panic"), p, input.clone()))?;
     if run.bad_command.is_some() {
@@ -422,7 +435,21 @@ fn faults_at(m: &Model, s: &SeqEntry, pools: &Pools, pos: usize, salt: usize) ->
     }
     // foreign control fields: a well-formed packet outside the reply set
     let foreign: Vec<Vec<u8>> = vec![vec![0x04, 0x01, 0x00], vec![0x06, 0xd8, 0x00], vec![0x05, 0x01, 0x03, 0x12, 0x34, 0x56], vec![0x06, 0x0f, 0x00], vec![0x04, 0xff, 0x01, 0x0a], vec![0x80, 0x00, 0x00], vec![0x06, 0x1e, 0x01, 0x6c]];
+    let mut foreign = foreign;
+    // near misses of the expected control fields
+    let expected: Vec<(u8, u8)> = if pos == 0 { vec![(0x80, 0x00)] } else { m.owned(s).iter().map(|(c, i, _, _)| (*c, *i)).collect() };
+    for (c, i) in &expected {
+        for (dc, di) in [(0u8, 1u8), (0, 0x80), (1, 0), (0x80, 0), (0, 0xff)] {
+            foreign.push(vec![c ^ dc, i ^ di, 0x00]);
+        }
+        if c != i {
+            foreign.push(vec![*i, *c, 0x00]);
+        }
+    }
     for fb in foreign {
+        if fb[0] == 0x84 {
+            continue;
+        }
         let in_set = if pos == 0 { fb[0] == 0x80 && fb[1] == 0 } else { m.owned(s).iter().any(|(c, i, _, _)| *c == fb[0] && *i == fb[1]) };
         if !in_set {
             out.push(Fault { pos, kind: "foreign".into(), bytes: hex(&fb) });
@@ -513,6 +540,33 @@ pub fn run_c06(tier: Tier) -> i32 {
         }
     });
     stats.merge(s);
+    // control-field sweep: at the acknowledgement position and instead of the first reply, every one of the 65 536
+    // (class, instr) pairs outside the expected set (near misses such as 80 01 included) must be reported as an error
+    let s = ctx.shards("control-field-sweep", m.seqs.len() as u64 * 2, |i, _seed, st| {
+        let s = &m.seqs[(i / 2) as usize];
+        let pos = (i % 2) as usize;
+        let cmd = hex(pools.pick(s.cmd, 0));
+        let (mut n, mut bad) = (0u64, 0u32);
+        for class in 0..=255u8 {
+            for instr in 0..=255u8 {
+                let in_set = if pos == 0 { class == 0x80 && instr == 0x00 } else { m.owned(s).iter().any(|(c, k, _, _)| *c == class && *k == instr) };
+                if in_set || class == 0x84 {
+                    continue;
+                }
+                let f = Fault { pos, kind: "foreign".into(), bytes: hex(&[class, instr, 0x00]) };
+                let c = SeqCase { seq: s.name.to_string(), cmd: cmd.clone(), replies: vec![], trailing: String::new(), chunks: vec![] };
+                n += 1;
+                let r = check_fault(&m, &c, &f);
+                if r.is_err() && bad < 3 {
+                    bad += 1;
+                    ctx.record(r, st);
+                }
+            }
+        }
+        st.enumerated(n, 0);
+        st.class_n(if pos == 0 { "control-field-sweep@ack" } else { "control-field-sweep@first-reply" }, n);
+    });
+    stats.merge(s);
     // random prefixes / bodies / fault bytes
     let nrand: u32 = tier.pick(150_000, 1_000_000);
     let s = ctx.shards("random", 32, |_i, seed, st| {
@@ -545,7 +599,7 @@ pub fn run_c06(tier: Tier) -> i32 {
         });
     });
     stats.merge(s);
-    stats.exhaustive_parts = vec![format!("17 sequences x every valid reply-script prefix of length <= {depth} x every fault (4 NACK codes, foreign control fields, malformed bodies per reply kind, 5 truncations, EOF) at the position behind the prefix (and at the ack position)")];
+    stats.exhaustive_parts = vec![format!("17 sequences x every valid reply-script prefix of length <= {depth} x every fault (4 NACK codes, foreign control fields incl. near misses of the expected ones, malformed bodies per reply kind, 5 truncations, EOF) at the position behind the prefix (and at the ack position)"), "17 sequences x all 65 536 control fields outside the expected set, at the acknowledgement position and instead of the first reply".into()];
     ctx.finish(
         stats,
         "17 Sequence impls x valid script prefixes x one fault {NACK 84 xx, packet outside the reply set, undecodable body inside the reply set, truncated packet + end of stream, end of stream} at the acknowledgement position or instead of reply j; exhaustive over prefixes up to the stated depth, then proptest prefixes up to 8 replies with random bodies. Oracle: Ok items for the replies before the fault, exactly one Err, then None twice without I/O, and no byte written once the faulty bytes were released. non-trivial = fault behind at least one acknowledged reply (position >= 2); distinct by (sequence, prefix bytes, fault)",
